@@ -188,6 +188,14 @@ def compute_dyadic_downscaling(info, source_scale_index, downscaler,
 
     half_chunk = [osz // f
                   for osz, f in zip(old_chunk_size, downscaling_factors)]
+    # The code below assembles each new chunk from at most two downscaled old
+    # chunks along each axis. Refuse other layouts instead of leaving part of
+    # the chunk uninitialized (or silently broadcast from a 1-voxel slab).
+    for ncs, hc, nsz in zip(new_chunk_size, half_chunk, new_size):
+        if hc == 0 or min(ncs, nsz) > 2 * hc or (nsz > ncs and ncs % hc != 0):
+            raise ValueError("Unsupported chunk sizes between scales "
+                             f"{old_key} ({old_chunk_size}) and "
+                             f"{new_key} ({new_chunk_size})")
     chunk_fetch_factor = [nsz // hc
                           for nsz, hc in zip(new_chunk_size, half_chunk)]
 
